@@ -96,6 +96,9 @@ class World:
           o['init'] = 'identity'
         if name == 'LFDA':
           o['embedding_type'] = 'plain'
+          # a neighbourhood size that reaches the feature count of the NARROWEST data set of the world (fit documents a
+          # cap at n_features - 1 there, for that fit) and is an ordinary value for the wider ones
+          o['k'] = int(min(self.dims))
         if name in ('ITML', 'ITML_Supervised'):
           o['gamma'] = 2.0
         if name in ('LSML', 'LSML_Supervised', 'ITML', 'ITML_Supervised'):
